@@ -6,8 +6,11 @@ recursive-descent mirror of the chumsky grammar of `src/ui/command/parser/expres
 Reading of the combinators (a PEG; tied to chumsky 0.10 by the correspondence run on every check):
 ordered choice commits to the first alternative that succeeds, `repeated()` is greedy, `or_not()` falls back to
 "nothing consumed", `separated_by` rewinds to before a separator that is not followed by an item,
-`padded()` skips white space on both sides, a panic (`unwrapped()`/`unwrap()` on a numeric overflow,
-`-(val as i64)` on 2^63 with overflow checks) aborts everything.
+`padded()` skips white space on both sides.  A numeric token that does not fit its type is a failure of that
+alternative (`number()` / `hex()` convert inside `try_map`; before BugStalker 49f358c, b81e8d8, 67375f8 these were
+`unwrapped()` / `unwrap()` panics), a negative literal is `(val as i64).wrapping_neg()` (before 0af67fe `-(val as i64)`,
+which panicked on 2^63 with overflow checks).  `PR.panic` ("a panic inside a sub-parser aborts everything") is still
+threaded through the combinators but no leaf produces it any more.
 
 `Literal::AssocArray` is a `HashMap`: the model keeps the key/value pairs in source order (`Lit.assoc`);
 a lookup takes the LAST pair of a key (`assocGet`), the number of entries is the number of distinct keys.
@@ -133,7 +136,7 @@ def parseDigits (radix bits : Nat) : List Nat → Nat → Option Nat
   | d :: ds, acc =>
     if acc * radix + d < 2 ^ bits then parseDigits radix bits ds (acc * radix + d) else none
 
-/-- `hex()`: `("0x"|"0X") digits(16).at_least(1)` + `usize::from_str_radix(..).unwrap()`, padded -/
+/-- `hex()`: `("0x"|"0X") digits(16).at_least(1)` + `usize::from_str_radix(..)` in `try_map`, padded -/
 def hexTok (s : Str) : PR Nat :=
   let s0 := skipWs s
   let body := match stripPrefix ['0', 'x'] s0 with
@@ -146,9 +149,9 @@ def hexTok (s : Str) : PR Nat :=
     | [] => .fail
     | tok => match parseDigits 16 64 (tok.map hexVal) 0 with
       | some v => .ok v (skipWs (r.dropWhile isHexDigit))
-      | none => .panic
+      | none => .fail
 
-/-- `"-"? text::int(10)` → u64 → `val as i64`, negated when signed (`-(2^63 as i64)` panics: overflow checks on) -/
+/-- `"-"? number::<u64>()` → `val as i64`, `wrapping_neg` when signed (`-9223372036854775808` is `i64::MIN`) -/
 def intTok (s : Str) : PR Int :=
   let neg := s.head? == some '-'
   let s1 := if neg then s.tail else s
@@ -156,10 +159,10 @@ def intTok (s : Str) : PR Int :=
   | none => .fail
   | some (tok, rest) =>
     match parseDigits 10 64 (tok.map decVal) 0 with
-    | none => .panic
+    | none => .fail
     | some v =>
       let i : Int := if v < 2 ^ 63 then (v : Int) else (v : Int) - 2 ^ 64
-      if neg then (if v = 2 ^ 63 then .panic else .ok (-i) rest) else .ok i rest
+      if neg then (if v = 2 ^ 63 then .ok i rest else .ok (-i) rest) else .ok i rest
 
 /-- `"-"? int(10) "." int(10)` -/
 def floatTok (s : Str) : Option (Lit × Str) :=
@@ -337,14 +340,14 @@ def ptrCast (s : Str) : PR Dqe :=
         | .fail => .fail
         | .panic => .panic
 
-/-- `text::int(10).or_not().padded()` + `parse::<usize>().unwrap()` -/
+/-- `number::<usize>().or_not().padded()`: a bound that does not fit is "no bound, nothing consumed" (`or_not`) -/
 def mbUsize (s : Str) : PR (Option Nat) :=
   let s0 := skipWs s
   match scanInt s0 with
   | none => .ok none (skipWs s0)
   | some (tok, r) => match parseDigits 10 64 (tok.map decVal) 0 with
     | some v => .ok (some v) (skipWs r)
-    | none => .panic
+    | none => .ok none (skipWs s0)
 
 inductive Post
   | field (f : Str)
